@@ -44,15 +44,19 @@ CLAIMED.update({
               "Coq proof + in-Coq differential correspondence and oracle", "5/C08"),
     "C09": _c("Proof: Props/C09.v shows for all wf tiers that editTimestamps yields shift+drop+clip entries, is total (empty tiers "
               "included), raises iff an entry leaves the old span in error mode, never shrinks the span, round-trips when nothing is "
-              "clipped, and appendTier's explicit result.  Implementation output and the printed/not-printed warning are compared "
-              "inside Coq; Textgrid.editTimestamps/appendTextgrid are compared tier-wise in the harness.",
+              "clipped, and appendTier's explicit result; Textgrid.editTimestamps acts tier-wise, appendTextgrid returns exactly the "
+              "documented tiers in the documented order, with unique names, each being A's tier, or B's tier re-spanned and moved by "
+              "A's duration, joined to A's entries of that name.  Implementation output and the printed/not-printed warning are "
+              "compared inside Coq, the textgrid-level operations as whole textgrids against their models.",
               "Coq proof + in-Coq differential correspondence and oracle", "5/C09"),
     "C10": _c("Proof: Props/C10.v shows for all wf operands that difference is labelled exactly where A is and B is not, intersection "
               "has one clipped a-b entry per overlapping pair and is labelled exactly where both are, union is total, well-formed and "
-              "labelled exactly where either is, and that difference and intersection partition A's labelled time.  Union label order, "
-              "mergeLabels, point union and Textgrid.mergeTiers are decided by evaluation against an independent sweep specification.",
+              "labelled exactly where either is, that difference and intersection partition A's labelled time, mergeLabels' explicit "
+              "result, and for point tiers that union holds exactly the union of the time points with the labels of coinciding "
+              "points joined a-b (operands with distinct times).  Union label order and Textgrid.mergeTiers are decided by "
+              "evaluation against an independent sweep specification and the mergeTiers model.",
               "Coq proof (fold invariants over insert/erase/crop models) + in-Coq differential correspondence and oracle", "5/C10",
-              "partial: the label-order clause of union, mergeLabels and point union are evaluated, not proved."),
+              "partial: the label-order clause of interval union is evaluated (and follows from C11's merge clause per step), not proved as one statement."),
     "C11": _c("Proof: Props/C11.v shows that the model of IntervalTier.insertEntry (lax crop, delete matches, append, sort, span "
               "update) equals the collision-policy specification for every wf tier, entry and mode, that order, disjointness and the "
               "just-enough span are re-established, and the delete clauses.  Single steps (exhaustive small scope) and histories of "
@@ -189,12 +193,14 @@ CLAIMED.update({
               "recording and is a genuine crossing (the sample is zero or differs in sign from a neighbour), and that it otherwise "
               "raises ArgumentError exactly when the step holds fewer than two samples and FindZeroCrossingError in every other "
               "case.  Results on in-memory and file-backed recordings are compared with the model on the exact time grid and judged "
-              "by the statement of the property inside Coq on all grids, each call under an alarm; tgBoundariesToZeroCrossings "
-              "(only timestamps change, each to a crossing; order, counts, labels kept) and audioSplice (durations agree within a "
-              "sample, one new interval over the inserted audio, earlier entries unchanged, later labels kept) are judged on the "
-              "real objects.",
-              "Coq proof (fuel/measure argument for termination, window-to-recording lemma for soundness) + in-Coq differential correspondence and oracle + evaluation of the composite scripts",
-              "5/C18", "partial: tgBoundariesToZeroCrossings and audioSplice are evaluated, not modelled; at non-dyadic rates only the outcome is judged (binary64 window bookkeeping)."),
+              "by the statement of the property inside Coq on all grids, each call under an alarm.  tgBoundariesToZeroCrossings "
+              "(model tg_zc: tiers, names, order kept, every time mapped through the search, labels kept) and audioSplice (model "
+              "splice with _shiftTimes: if the textgrid ends where the recording ends, so does the returned pair, with or without "
+              "alignment or a replaced region; the named tier holds the new interval over exactly the inserted samples) are proved "
+              "on their models and compared with the scripts as whole textgrids / recordings inside Coq; the scripts' statements "
+              "are pinned by the translator (facts/FactsScripts.v).",
+              "Coq proof (fuel/measure argument for termination, window-to-recording lemma for soundness, span invariants through the splice) + in-Coq differential correspondence and oracle",
+              "5/C18", "partial: at non-dyadic rates a search with two exactly tied candidates is decided by binary64 rounding; such cases are judged by the oracle only."),
 })
 
 CLAIMED.update({
